@@ -482,5 +482,8 @@ _upd('C19', text_add='Added: reserved words and the vocabulary of objects as key
 _upd('C20', text_add='Added: the source-level helper calmjs.parse.es5.pretty_print with the indentation string given by position and by keyword.')
 for _cid in ('C01', 'C02'):
     _upd(_cid, text_add='Corpus: an expression-ending `}` followed by a division; a regular expression starting with `=` behind a block, same and next line.')
+_upd('C07', text_add='Added (contracts/remap.py): Scope.resolve and the renaming loop of Scope.build_remap_symbols in state form over arbitrary tables: every '
+                     'referenced local symbol gets a generated name outside the reserved set, names pairwise different, every other entry untouched '
+                     '(quantified loop invariants, z3).')
 
 NOT_APPLICABLE = {}
